@@ -112,7 +112,7 @@ CHECKS.update({
 
 CHECKS.update({
  "C01": ("fuzz-style property testing with a crash/hang oracle: boundary-value command templates, deep nesting, and mutants of the repository's own test scripts executed by brush (unprivileged, sandboxed); exhaustive short strings, fragment concatenations and corpus mutants through the library entry points in process",
-         "4k (quick) / 120k (thorough) template and nesting cases and 3k/120k corpus mutants executed; in process every string up to length 3 (quick, 30.8k) / 4 (thorough, 954k) over a 31-character metacharacter alphabet, 40k/1.5M fragment lines, 20k/600k corpus mutants, 12k/300k templates through tokenizer (4 option sets), program parser and printer, word/brace/here-document/arithmetic/pattern/prompt/test/key-binding parsers and pattern matching, 4k/100k lines through the completion entry point at a spread of cursor positions. Oracle: no panic, abort, fatal signal or worker death; no in-process call over 4 s; no hang where bash ends within 1.5 s and brush twice exceeds 12 s. Exhaustive up to the length bound, exploration beyond.",
+         "20k (quick) / 400k (thorough) template and nesting cases and 3k/120k corpus mutants executed; in process every string up to length 3 (quick, 30.8k) / 4 (thorough, 954k) over a 31-character metacharacter alphabet, 40k/1.5M fragment lines, 20k/600k corpus mutants, 12k/300k templates through tokenizer (4 option sets), program parser and printer, word/brace/here-document/arithmetic/pattern/prompt/test/key-binding parsers and pattern matching, 4k/100k lines through the completion entry point at a spread of cursor positions. Oracle: no panic, abort, fatal signal or worker death; no in-process call over 4 s; no hang where bash ends within 1.5 s and brush twice exceeds 12 s. Exhaustive up to the length bound, exploration beyond.",
          "texts naming commands or paths outside the sandbox's allow-list are not executed; a stack overflow counts only if bash survives the same text (unbounded recursion kills bash too); syntax highlighting is C19's subject; nesting depth 64 is reached by templates and by the repeat-64 mutation", "DESIGN.md §3 C01"),
 })
 
